@@ -72,7 +72,8 @@ def st_slice_form(n, m):
     else:
         idx = st.just([])
     forms.append(st.builds(lambda i, how: {'k': 'ilist', 'idx': i, 'as': how}, idx,
-                           st.sampled_from(['list', 'tuple', 'nested', 'np64', 'np32', 'npu64'])))
+                           st.sampled_from(['list', 'tuple', 'nested', 'np64', 'np32', 'npu64', 'nested_np',
+                                            'nested_list_np', 'nested_list'])))
     forms.append(st.builds(lambda bits, how: {'k': 'mask', 'bits': bits, 'as': how},
                            st.lists(st.booleans(), min_size=n, max_size=n), st.sampled_from(['np', 'np', 'list', 'tuple'])))
     if m.cap_keys == 'req' and not m.taint and m.keys and len(set(m.keys)) == len(m.keys):
